@@ -228,6 +228,8 @@ func specialFamily() []*pg.Program {
 	feat("time-alias", func(p *pg.Program) { p.F.TimeImp = "alias" })
 	feat("time-other", func(p *pg.Program) { p.F.TimeImp = "other" })
 	feat("debug-other", func(p *pg.Program) { p.F.DebugImp = "other" })
+	feat("debug-dirname", func(p *pg.Program) { p.F.DebugImp = "dirname" })
+	feat("time-dirname", func(p *pg.Program) { p.F.TimeImp = "dirname" })
 	feat("cff-alias", func(p *pg.Program) { p.F.CffAlias = "c" })
 	feat("paren", func(p *pg.Program) { p.F.Paren = true })
 	feat("surround", func(p *pg.Program) { p.F.Surround = true })
@@ -440,6 +442,17 @@ func after_ID() int { return len(blob_ID) }
 	return n, err
 }
 `)
+	rawImp("indirect-type:path-v2-two-types", "accept", "\t\"MOD/ext/backend\"\n", `func run_ID(ctx context.Context) (int, int32, error) {
+	var (
+		n int
+		m int32
+	)
+	err := cff.Flow(ctx, cff.Results(&n, &m),
+		cff.Task(backend.Fetch), cff.Task(backend.Describe),
+		cff.Task(backend.Fetch2), cff.Task(backend.Describe2))
+	return n, m, err
+}
+`)
 	rawImp("indirect-type:dir-not-ident", "accept", "\t\"MOD/ext/backend\"\n", `func run_ID(ctx context.Context) (int64, error) {
 	var n int64
 	err := cff.Flow(ctx, cff.Results(&n), cff.Task(backend.Item), cff.Task(backend.Weigh))
@@ -649,7 +662,7 @@ func staticMain(prop, tier, build, overlay, repo, cffBin string) {
 		if m.autoInst {
 			name += "+auto"
 		}
-		g := &genSet{dir: filepath.Join(build, "gen-"+name), mode: m.mode, autoInst: m.autoInst, progs: progs}
+		g := &genSet{dir: filepath.Join(build, "gen-"+name), mode: m.mode, autoInst: m.autoInst, progs: progs, testFile: prop == "C14"}
 		g.write(repo, mc.VerifDir())
 		g.runCff(cffBin, mc.Workers())
 		sets[name] = g
@@ -904,7 +917,7 @@ func c13MultiPackage(build, repo, cffBin string, rep *mc.Reporter) int {
 			report("cff ./... failed on valid packages: " + firstLines(se, 3))
 			continue
 		}
-		want := []string{"fsp/a_gen.go", "fsp/b.v2_gen.go", "fsp/xa_gen.go", "fsp/d_gen_test.go", "fsq/a_gen.go", "fsr/a_gen.go", "fsr/xa_gen.go"}
+		want := []string{"fsp/a_gen.go", "fsp/b.v2_gen.go", "fsp/xa_gen.go", "fsp/f_testutil_gen.go", "fsp/d_gen_test.go", "fsq/a_gen.go", "fsr/a_gen.go", "fsr/xa_gen.go"}
 		for _, w := range want {
 			if _, err := os.Stat(filepath.Join(root, w)); err != nil {
 				report("cff ./... exited successfully but wrote no " + w + " (a cff file of one package was skipped)")
